@@ -83,11 +83,19 @@ def unsupported_dtype(
     )
 
 
+def value_str(value: object) -> str:
+    """Return str(value), in hexadecimal for an int that is too long to convert to decimal."""
+    try:
+        return str(value)
+    except ValueError:
+        return hex(value)  # type: ignore[arg-type]
+
+
 def int_out_of_range(value: int, min: int, max: int) -> OverflowError:
     """Create an OverflowError when an int is out of the specified range."""
     raise OverflowError(
         "The input value is out of range.\n\n"
-        f"Requested value: {value}\n"
+        f"Requested value: {value_str(value)}\n"
         f"Minimum value: {min}\n",
         f"Maximum value: {max}",
     )
